@@ -237,10 +237,92 @@ type runAgg struct {
 	spins       uint64
 }
 
+// runParts runs every sub-check of a composite property and merges evidence.
+func runParts(id string, p *Prop, tier string, seed int64) int {
+	t0 := time.Now()
+	merged := map[string]any{}
+	evals, distinct, violations := 0, 0, 0
+	var samples []any
+	var assumptions []string
+	seenA := map[string]bool{}
+	rc := 0
+	for _, part := range p.Parts {
+		r := runCheck(part, tier, seed)
+		b, err := os.ReadFile(filepath.Join(evidenceDir(), part+".json"))
+		if err == nil {
+			var ev map[string]any
+			if json.Unmarshal(b, &ev) == nil {
+				cov, _ := ev["coverage"].(map[string]any)
+				merged[part] = cov
+				if v, ok := cov["evaluations"].(float64); ok {
+					evals += int(v)
+				}
+				if v, ok := cov["distinct_nontrivial"].(float64); ok {
+					distinct += int(v)
+				}
+				if sm, ok := cov["samples"].([]any); ok && len(sm) > 0 {
+					samples = append(samples, map[string]any{"part": part, "sample": sm[0]})
+				}
+				if as, ok := ev["assumptions"].([]any); ok {
+					for _, a := range as {
+						if s, ok := a.(string); ok && !seenA[s] {
+							seenA[s] = true
+							assumptions = append(assumptions, s)
+						}
+					}
+				}
+				if v, ok := ev["violations"].(float64); ok {
+					violations += int(v)
+				}
+			}
+			os.Remove(filepath.Join(evidenceDir(), part+".json"))
+		}
+		if r != 0 {
+			rc = r
+			break
+		}
+	}
+	if rc == 2 {
+		return 2
+	}
+	ev := map[string]any{
+		"property_id": id, "tier": tier, "seed": seed, "level": "exploration",
+		"coverage": map[string]any{
+			"evaluations": evals, "distinct_nontrivial": distinct,
+			"rule":    "sum over the parts of this property; each part counts as described in its own coverage block (one evaluation = one simulated run; non-trivial = a fault fired or a scheduling decision had several candidates; distinct by schedule hash, event-log hash, fault multiset, scenario shape)",
+			"samples": samples, "parts": merged,
+		},
+		"assumptions": assumptions, "wall_s": time.Since(t0).Seconds(), "violations": violations,
+	}
+	b, _ := json.MarshalIndent(ev, "", " ")
+	os.MkdirAll(evidenceDir(), 0o755)
+	os.WriteFile(filepath.Join(evidenceDir(), id+".json"), b, 0o644)
+	if rc == 1 {
+		// the part printed "VIOLATION property=<part>": repeat it under the parent id
+		fmt.Printf("VIOLATION property=%s replay=%s\n", id, lastReplayPath)
+	}
+	return rc
+}
+
+var lastReplayPath string
+
+// parentOf maps a part id (C14we) to its property id (C14).
+func parentOf(id string) string {
+	for i, c := range id {
+		if i > 0 && c >= 'a' && c <= 'z' {
+			return id[:i]
+		}
+	}
+	return id
+}
+
 func runCheck(id, tier string, seed int64) int {
 	p := props[id]
 	if p == nil {
 		die2("unknown or unclaimed property %s", id)
+	}
+	if len(p.Parts) > 0 {
+		return runParts(id, p, tier, seed)
 	}
 	w := worlds[p.World]
 	t0 := time.Now()
@@ -269,6 +351,7 @@ func runCheck(id, tier string, seed int64) int {
 		fmt.Sscan(v, &nworkers)
 	}
 	known := loadKnown()
+	kid := parentOf(id)
 	agg := &runAgg{distinct: map[string]bool{}, shapes: map[string]bool{}, probes: map[string]int{}, faults: map[string]int{}}
 	var mu sync.Mutex
 	var firstBad *Reply
@@ -345,7 +428,7 @@ func runCheck(id, tier string, seed int64) int {
 		}
 		var fresh []Violation
 		for _, v := range viols {
-			if k := matchKnown(known, id, v); k != nil {
+			if k := matchKnown(known, kid, v); k != nil {
 				knownHits[k.What]++
 				continue
 			}
@@ -435,14 +518,19 @@ func runCheck(id, tier string, seed int64) int {
 	}
 	writeEvidence(id, p, tier, seed, agg, wall, buildS, violations, knownHits)
 	for what, n := range knownHits {
-		fmt.Printf("KNOWN-FINDING: property=%s %s (seen in %d runs)\n", id, what, n)
+		fmt.Printf("KNOWN-FINDING: property=%s %s (seen in %d runs)\n", parentOf(id), what, n)
 	}
 	fmt.Printf("simcheck %s tier=%s seed=%d runs=%d distinct_nontrivial=%d sim_s=%.1f wall_s=%.1f build_s=%.1f slowest_run=%dms(seed %d) spin_sleeps=%d\n", id, tier, seed, agg.runs, agg.nontrivial, float64(agg.simNs)/1e9, wall, buildS, agg.slowMs, agg.slowSeed, agg.spins)
 	if firstBad != nil {
 		for _, v := range firstBad.Outcome.Viol {
 			fmt.Printf("  oracle=%s: %s\n", v.Oracle, v.Msg)
 		}
-		fmt.Printf("VIOLATION property=%s replay=%s\n", id, replayPath)
+		lastReplayPath = replayPath
+		if isPart(id) {
+			fmt.Printf("violation in part %s replay=%s\n", id, replayPath)
+		} else {
+			fmt.Printf("VIOLATION property=%s replay=%s\n", id, replayPath)
+		}
 		return 1
 	}
 	return 0
